@@ -1519,8 +1519,19 @@ fn constrain_locked_typevars(
     let (key1, potential_ty1) = tyvar1.0.clone_data().types.into_iter().next().unwrap();
     let (key2, potential_ty2) = tyvar2.0.clone_data().types.into_iter().next().unwrap();
     if key1 != key2 {
-        // `never` type does not create conflicts
-        if key1 != TypeKey::Never && key2 != TypeKey::Never {
+        // `never` type does not create conflicts: a diverging expression takes on the type
+        // it is unified with, so `never` does not stick to a value that is actually produced
+        if key1 == TypeKey::Never {
+            tyvar1.0.with_data(|d| {
+                d.types.remove(&key1);
+                d.extend(potential_ty2);
+            });
+        } else if key2 == TypeKey::Never {
+            tyvar2.0.with_data(|d| {
+                d.types.remove(&key2);
+                d.extend(potential_ty1);
+            });
+        } else {
             ctx.errors.push(Error::TypeConflict {
                 ty1: potential_ty1,
                 ty2: potential_ty2,
